@@ -121,13 +121,27 @@ def removeAll {V : Type} (m : OMap V) : List String → OMap V
   | [] => m
   | p :: ps => removeAll (m.remove p) ps
 
-/-- `confirm_actions`: deletions first, then copies; removal happens after each pass. -/
+/-- `RootRelativePath::is_inside` -/
+def isInside (k folder : String) : Bool :=
+  if folder = "" then k != "" else (folder ++ "/").isPrefixOf k
+
+/-- the copies that a kept destination entry stands in the way of: the source entry at a path whose
+*incompatible* deletion was skipped, and everything inside it -/
+def blockedCopies (del : OMap (Details × DelReason)) (cpy : OMap (Details × CopyReason)) (rm : List String) : List String :=
+  let blocked := rm.filter fun p => match del.get p with
+    | some (_, .incompatible) => true
+    | _ => false
+  cpy.keys.filter fun k => blocked.any fun b => k == b || isInside k b
+
+/-- `confirm_actions`: deletions first, then copies; removal happens after each pass.  Copies that a
+skipped incompatible deletion was to make room for are dropped before the copies are confirmed. -/
 def confirmActions (c : Conf) (del : OMap (Details × DelReason)) (cpy : OMap (Details × CopyReason)) :
     Option ErrKind × Conf × OMap (Details × DelReason) × OMap (Details × CopyReason) :=
   match confirmDeletes c del.iter [] with
   | (some e, c', _) => (some e, c', del, cpy)
   | (none, c', rm) =>
     let del' := removeAll del rm
+    let cpy := removeAll cpy (blockedCopies del cpy rm)
     match confirmCopies c' cpy.iter [] with
     | (some e, c'', _) => (some e, c'', del', cpy)
     | (none, c'', rm2) => (none, c'', del', removeAll cpy rm2)
